@@ -19,7 +19,7 @@ use verif_harness::util::*;
 
 const SLOW_RULE: &str = "rule slow { condition: for any i in (0..4000000000) : (i == 3999999999 and filesize == 123456) }\n";
 
-struct Session { src_a: String, variants: Vec<String>, src_b: String, bufs: Vec<Vec<u8>> }
+struct Session { src_a: String, variants: Vec<String>, src_b: String, bufs: Vec<Vec<u8>>, has_math: bool }
 
 fn gen_session(seed: u64) -> Session {
     let mut rng = Rng::new(seed ^ 0xC13);
@@ -42,6 +42,14 @@ fn gen_session(seed: u64) -> Session {
         src_a.push_str("import \"hash\"\n");
         src_a.push_str("rule h0 { condition: hash.crc32(0, filesize) % 3 == 1 }\n");
         src_a.push_str("rule h1 { condition: filesize > 8 and hash.md5(0, 8) == hash.md5(0, 8) and hash.sha256(0, filesize) != \"\" }\n");
+    }
+    // the math module caches byte distributions of ranges >= 4096 bytes per thread
+    let has_math = yara_x::Compiler::new().add_source("import \"math\" rule t { condition: math.entropy(0, 1) >= 0.0 }").is_ok();
+    if has_math {
+        src_a.push_str("import \"math\"\n");
+        src_a.push_str("rule m0 { condition: math.entropy(0, filesize) < 1.0 }\n");
+        src_a.push_str("rule m1 { condition: math.entropy(0, filesize) > 6.5 }\n");
+        src_a.push_str("rule m2 { condition: math.mean(0, filesize) > 90.0 and math.deviation(0, filesize, 97.0) < 1.0 }\n");
     }
     for r in &pool { if rng.chance(3, 4) { src_a.push_str(r); src_a.push('\n'); } }
     if !src_a.contains("rule a") { src_a.push_str(&pool[0]); src_a.push('\n'); }
@@ -66,7 +74,11 @@ fn gen_session(seed: u64) -> Session {
         }
         bufs.push(b);
     }
-    Session { src_a, variants, src_b, bufs }
+    // three buffers of the SAME size (8192) and different content: the cache key of the math module is (start, end)
+    bufs.push(vec![0u8; 8192]);
+    bufs.push((0..8192u32).map(|i| (i * 7 + i / 256) as u8).collect());
+    bufs.push(vec![b'a'; 8192]);
+    Session { src_a, variants, src_b, bufs, has_math }
 }
 
 fn compile(src: &str) -> yara_x::Rules {
@@ -95,7 +107,9 @@ fn dump(r: &yara_x::ScanResults) -> String {
 #[derive(Clone, Debug)]
 enum Op {
     New,
-    ScanFast { buf: usize, set_timeout_ms: Option<u64> },
+    /// `which`: one of the TWO scanners each thread alternates between; `supply_math`: the output of the math module is
+    /// supplied by the user (its main function, which clears the thread-local cache, does not run)
+    ScanFast { buf: usize, set_timeout_ms: Option<u64>, which: usize, supply_math: bool },
     ScanSlow { timeout_ms: u64 },
     Build { variant: usize, buf: usize },
     Deser { buf: usize },
@@ -104,7 +118,9 @@ enum Op {
 fn gen_ops(rng: &mut Rng, nbufs: usize, allow_slow: bool, first_is_timeout_scan: bool) -> Vec<Op> {
     let n = 5 + rng.below(14) as usize;
     let mut ops = vec![];
-    if first_is_timeout_scan { ops.push(Op::New); ops.push(Op::ScanFast { buf: rng.below(nbufs as u64) as usize, set_timeout_ms: Some(100_000) }); }
+    if first_is_timeout_scan { ops.push(Op::New); ops.push(Op::ScanFast { buf: rng.below(nbufs as u64) as usize, set_timeout_ms: Some(100_000), which: 0, supply_math: false }); }
+    // two scanners alternating on this thread over same-sized buffers, module output supplied (thread-local caches)
+    for (k, b) in [nbufs - 3, nbufs - 2, nbufs - 1, nbufs - 3].iter().enumerate() { ops.push(Op::ScanFast { buf: *b, set_timeout_ms: None, which: k % 2, supply_math: true }); }
     let slow_at = if allow_slow { Some(rng.below(n as u64) as usize) } else { None };
     for k in 0..n {
         if Some(k) == slow_at { ops.push(Op::ScanSlow { timeout_ms: if rng.chance(1, 3) { 1500 } else { 300 } }); continue; }
@@ -113,7 +129,7 @@ fn gen_ops(rng: &mut Rng, nbufs: usize, allow_slow: bool, first_is_timeout_scan:
             2 => Op::Build { variant: rng.below(3) as usize, buf: rng.below(nbufs as u64) as usize },
             3 => Op::Deser { buf: rng.below(nbufs as u64) as usize },
             _ => Op::ScanFast { buf: rng.below(nbufs as u64) as usize, set_timeout_ms: match rng.below(20) {
-                0 => Some(200), 1 => Some(2500), 2 => Some(1_000_000), _ => None } },
+                0 => Some(200), 1 => Some(2500), 2 => Some(1_000_000), _ => None }, which: rng.below(2) as usize, supply_math: rng.chance(1, 3) },
         });
     }
     ops
@@ -139,25 +155,25 @@ fn scan_rec(thread: usize, kind: &'static str, sc: &mut yara_x::Scanner, data: &
 
 fn run_thread(thread: usize, ops: &[Op], rules_a: &yara_x::Rules, rules_b: &yara_x::Rules, bytes_a: &[u8], sess: &Session) -> Vec<Rec> {
     let mut recs = vec![];
-    let mut scanner: Option<yara_x::Scanner> = None;
-    let mut cur_timeout: Option<u64> = None;
+    let mut scanners: [Option<yara_x::Scanner>; 2] = [None, None];
+    let mut cur_timeouts: [Option<u64>; 2] = [None, None];
     for op in ops {
         match op {
             Op::New => {
                 let t0 = Instant::now();
-                drop(scanner.take());
-                scanner = Some(yara_x::Scanner::new(rules_a));
-                cur_timeout = None;
+                for w in 0..2 { drop(scanners[w].take()); cur_timeouts[w] = None; }
+                scanners[0] = Some(yara_x::Scanner::new(rules_a));
                 recs.push(Rec { thread, kind: "new", engine: true, timeout_secs: None, class: "done", dump: None, key: None, slow: false, ms: t0.elapsed().as_millis() as u64 });
             }
-            Op::ScanFast { buf, set_timeout_ms } => {
-                if scanner.is_none() {
-                    scanner = Some(yara_x::Scanner::new(rules_a)); cur_timeout = None;
+            Op::ScanFast { buf, set_timeout_ms, which, supply_math } => {
+                if scanners[*which].is_none() {
+                    scanners[*which] = Some(yara_x::Scanner::new(rules_a)); cur_timeouts[*which] = None;
                     recs.push(Rec { thread, kind: "new", engine: true, timeout_secs: None, class: "done", dump: None, key: None, slow: false, ms: 0 });
                 }
-                let sc = scanner.as_mut().unwrap();
-                if let Some(ms) = set_timeout_ms { sc.set_timeout(Duration::from_millis(*ms)); cur_timeout = Some(secs_of(*ms)); }
-                recs.push(scan_rec(thread, "scan", sc, &sess.bufs[*buf], cur_timeout, Some((0, *buf)), false));
+                let sc = scanners[*which].as_mut().unwrap();
+                if let Some(ms) = set_timeout_ms { sc.set_timeout(Duration::from_millis(*ms)); cur_timeouts[*which] = Some(secs_of(*ms)); }
+                let supplied = *supply_math && sess.has_math && sc.set_module_output_raw("math", &[]).is_ok();
+                recs.push(scan_rec(thread, if supplied { "scan_math_output_supplied" } else { "scan" }, sc, &sess.bufs[*buf], cur_timeouts[*which], Some((0, *buf)), false));
             }
             Op::ScanSlow { timeout_ms } => {
                 let mut sc = yara_x::Scanner::new(rules_b);
